@@ -261,6 +261,11 @@ func (g *node1Gen) step() error {
 	r := n.r
 	atomic.AddInt64(&simBeat, 1)
 	simDoing.Store("an event of the single-node driver")
+	if n.cur == Follower && n.r.timer.active && g.rnd.Intn(3) == 0 {
+		// the election timer is stopped before the event: whether the handler re-arms it (the node heard
+		// from a leader / granted a vote) then shows in the state
+		n.r.timer.stop()
+	}
 	pre := n.dump()
 	c := g.rnd.Intn(100)
 	switch {
